@@ -149,6 +149,13 @@ class C16(vlib.Check):
                 return False
         return True
 
+    def same(self, case, impl, model):
+        # where the bytes live (in-object vs heap) is a capacity-policy detail the property does not
+        # constrain: only 'F' (inside ANOTHER object) is distinguished from own storage
+        import re
+        norm = lambda l: re.sub(r':[LH](?=;|\||$)', ':S', l)
+        return norm(impl) == norm(model)
+
     def nontrivial(self, case, impl):
         return case.count(';') >= 2
 
